@@ -49,6 +49,10 @@ static _Atomic rid_t c_b = 0;
 
 static _Atomic nid_t gvt_nodes;
 
+/// The count of GVT reductions completed by this thread
+/** A computed GVT can legitimately be 0.0, so the value returned by gvt_phase_run() can't signal completion */
+static __thread unsigned gvt_rounds_done;
+
 __thread _Bool gvt_phase;
 __thread uint32_t remote_msg_seq[2][MAX_NODES];
 __thread uint32_t remote_msg_received[2];
@@ -253,8 +257,12 @@ static bool gvt_node_phase_run(void)
 
 simtime_t gvt_phase_run(void)
 {
-	if(unlikely(thread_phase))
-		return gvt_node_phase_run() ? *reducing_p : 0.0;
+	if(unlikely(thread_phase)) {
+		if(!gvt_node_phase_run())
+			return 0.0;
+		++gvt_rounds_done;
+		return *reducing_p;
+	}
 
 	if(unlikely(atomic_load_explicit(&c_b, memory_order_relaxed)))
 		gvt_start_processing();
@@ -283,8 +291,11 @@ void gvt_msg_drain(void)
 
 	for(int i = 0; i < 2; ++i) { // flush both gvt phases
 		gvt_timer = 0;       // this satisfies the timer condition
-		while(!gvt_phase_run())
+		unsigned done = gvt_rounds_done;
+		while(done == gvt_rounds_done) {
+			gvt_phase_run();
 			mpi_remote_msg_drain();
+		}
 	}
 }
 
